@@ -149,6 +149,13 @@ def p_lt(x, y):
 
 
 @predicate
+def p_eq_nested(x, k):
+    """a user predicate that calls another user predicate in its body (must be a plain call while evaluating)"""
+    LOG.hit("p_eq_nested", getattr(x, "tag", x))
+    return True if p_eq(x, k) else False
+
+
+@predicate
 def val_eq(v, k):
     LOG.hit("val_eq", v)
     return v == k
@@ -174,7 +181,7 @@ class PLt(Predicate):
         return self.x.p < self.y.p
 
 
-PREDICATE_FUNCS = {"p_eq": p_eq, "p_lt": p_lt, "val_eq": val_eq}
+PREDICATE_FUNCS = {"p_eq": p_eq, "p_lt": p_lt, "val_eq": val_eq, "p_eq_nested": p_eq_nested}
 PREDICATE_CLASSES = {"PEq": PEq, "PLt": PLt, "HasType": HasType}
 
 
